@@ -325,7 +325,7 @@ impl<'a, 'ast> Visit<'ast> for FnVisitor<'a> {
             .filter_map(|a| if let syn::Expr::Lit(syn::ExprLit { lit: syn::Lit::Str(s), .. }) = a { Some(s.value()) } else { None })
             .collect();
         let recv = e.receiver.to_token_stream().to_string();
-        self.f.str_calls.push(format!("{{\"method\":{},\"recv\":{},\"lits\":{},\"nargs\":{}}}", esc(&e.method.to_string()), esc(&recv), sarr(&lits), e.args.len()));
+        self.f.str_calls.push(format!("{{\"method\":{},\"recv\":{},\"lits\":{},\"nargs\":{},\"conds\":{}}}", esc(&e.method.to_string()), esc(&recv), sarr(&lits), e.args.len(), sarr(&self.conds)));
         syn::visit::visit_expr_method_call(self, e);
     }
     fn visit_expr_call(&mut self, e: &'ast syn::ExprCall) {
@@ -472,7 +472,51 @@ fn walk(dir: &std::path::Path, files: &mut Vec<std::path::PathBuf>) {
     }
 }
 
+/// `tmplx --expanded <file>`: splits the output of -Zunpretty=expanded into modules and prints, per module, the
+/// normalised token text of every item (so that expansions can be compared as token streams, not as text)
+fn expanded(path: &str) {
+    let src = std::fs::read_to_string(path).unwrap();
+    let ast = syn::parse_file(&src).expect("expanded source does not parse");
+    let mut mods = Vec::new();
+    fn items_json(items: &[syn::Item], out: &mut Vec<String>) {
+        for it in items {
+            match it {
+                syn::Item::Mod(m) if m.ident == "inner" => {
+                    if let Some((_, its)) = &m.content {
+                        items_json(its, out);
+                    }
+                }
+                syn::Item::Use(_) | syn::Item::Macro(_) => {}
+                syn::Item::Enum(e) => {
+                    out.push(format!("{{\"kind\":\"enum\",\"name\":{},\"tokens\":{}}}", esc(&e.ident.to_string()), esc(&e.to_token_stream().to_string())));
+                }
+                other => {
+                    let mut o = other.clone();
+                    strip_docs(&mut o);
+                    out.push(format!("{{\"kind\":\"item\",\"tokens\":{}}}", esc(&o.to_token_stream().to_string())));
+                }
+            }
+        }
+    }
+    for it in &ast.items {
+        if let syn::Item::Mod(m) = it {
+            if let Some((_, its)) = &m.content {
+                let mut v = Vec::new();
+                items_json(its, &mut v);
+                mods.push(format!("{}:{}", esc(&m.ident.to_string()), arr(&v)));
+            }
+        }
+    }
+    println!("{{{}}}", mods.join(","));
+}
+
+fn strip_docs(_it: &mut syn::Item) {}
+
 fn main() {
+    if std::env::args().nth(1).as_deref() == Some("--expanded") {
+        expanded(&std::env::args().nth(2).expect("file"));
+        return;
+    }
     let root = std::env::args().nth(1).expect("usage: tmplx <src dir>");
     let root = std::path::PathBuf::from(root);
     let mut files = Vec::new();
